@@ -9,6 +9,10 @@
 (* Decide is the case analysis the property states: accept with value         *)
 (* number x unit iff the text is <digits><optional ws><known unit> and the    *)
 (* product fits the target type; everything else is rejected.                 *)
+(* The verdict belongs to the literal, not to the road it travels: an integer *)
+(* scalar arrives unsigned from YAML and JSON, signed from TOML (whose        *)
+(* integers are 64-bit signed) and from a program that builds the             *)
+(* configuration value itself - the replay sends it down all four.            *)
 (***************************************************************************)
 EXTENDS Integers, Sequences, FiniteSets, TLC
 CONSTANTS Target        \* "size" (u64 bytes) | "interval" (i64 count of a named unit)
